@@ -349,6 +349,8 @@ def run(ctx):
                 z = rnd.sample(range(total), n)
                 regs.append(("shuffled", z))
             if n >= 2:
+                # listed in ascending zone-id order (unsorted by name)
+                regs.append(("sorted-by-id", sorted(rnd.sample(range(total), n), key=lambda i_: IDS[db][i_])))
                 z = sorted(rnd.sample(range(total), n))
                 z[-1], z[-2] = z[-2], z[-1]
                 regs.append(("last-pair-swapped", z))
@@ -364,6 +366,10 @@ def run(ctx):
                     samples.append({"db": db, "shape": shape, "zones": [NAMES[db][i] for i in z]})
         # the full shipped registry
         reg = dict(db=db, cache=2, zones=list(range(total)), shape="full")
+        R.check_registry(reg)
+        nreg += 1
+        # ... and all its zones listed in ascending zone-id order
+        reg = dict(db=db, cache=2, zones=sorted(range(total), key=lambda i_: IDS[db][i_]), shape="full-by-id")
         R.check_registry(reg)
         nreg += 1
     # Hypothesis-generated arbitrary query strings (incl. bytes >= 0x80) against mid-size sorted registries
